@@ -67,11 +67,26 @@ impl BlobHash {
         let [.., first, second, third] = components.as_slice() else {
             return Err(TypesError::InvalidHashFormat(hex::FromHexError::InvalidStringLength));
         };
+        // Only the canonical spelling produced by `relative_path` (lower-case hex split 2/2/60)
+        // names a blob. Any other spelling decodes to a hash whose blob file lives elsewhere, so
+        // it must not be taken for that blob (it could neither be read nor cleaned up under it).
+        let lens = [first, second, third].map(|c| c.as_os_str().as_encoded_bytes().len());
+        if lens != [2, 2, HASH_SIZE * 2 - 4] {
+            return Err(TypesError::InvalidHashFormat(hex::FromHexError::InvalidStringLength));
+        }
+
         let mut buf = Vec::with_capacity(HASH_SIZE * 2);
 
         for component in [first, second, third] {
             let component = component.as_os_str().as_encoded_bytes();
             buf.extend_from_slice(component);
+        }
+
+        if let Some(index) = buf.iter().position(u8::is_ascii_uppercase) {
+            return Err(TypesError::InvalidHashFormat(hex::FromHexError::InvalidHexCharacter {
+                c: char::from(buf[index]),
+                index,
+            }));
         }
 
         let mut res = [0u8; HASH_SIZE];
